@@ -42,6 +42,7 @@ func Gen(t *rapid.T) *Case {
 			c.MaxDepth = 0
 		}
 	}
+	c.Retry = c.End != "wait" && rapid.Bool().Draw(t, "retry")
 	if c.End == "shutdown_timeout" {
 		c.Rel = rapid.SampledFrom([]string{"shorter", "longer", "equal"}).Draw(t, "rel")
 	}
